@@ -121,10 +121,11 @@ func c12Seeds(full bool) []c12Seed {
 // ---- mutants
 
 type c12Mutant struct {
-	Seed   string `json:"seed"`
-	Family string `json:"family"`
-	Desc   string `json:"desc"`
-	Bytes  []byte `json:"bytes"`
+	Seed       string `json:"seed"`
+	Family     string `json:"family"`
+	Desc       string `json:"desc"`
+	Bytes      []byte `json:"bytes"`
+	MustReject bool   `json:"must_reject,omitempty"` // malformed by construction: one receive error, nothing delivered
 }
 
 var c12Dict = []byte{0x00, 0x01, 0x17, 0x18, 0x1b, 0x3b, 0x40, 0x50, 0x51, 0x5b, 0x7f, 0x80, 0x9f, 0xa0, 0xbf, 0xd8, 0xf6, 0xfb, 0xff}
@@ -208,6 +209,13 @@ func c12Mutants(sd c12Seed, full bool, phase int, visit func(m c12Mutant) bool) 
 			{"huge", binary.AppendUvarint(nil, 1<<40)},
 		} {
 			if !mk("lenprefix", alt.d, append(append([]byte{}, alt.p...), body...)) {
+				return
+			}
+		}
+		// a frame whose body is a valid message followed by extra bytes (the prefix covers both)
+		for _, g := range [][]byte{{0x00}, {0xff}, {0xa0}, {0xf6, 0xf6}, bytes.Repeat([]byte{0xff}, 64), body} {
+			padded := append(append([]byte{}, body...), g...)
+			if phase == 1 && !visit(c12Mutant{Seed: sd.Name, Family: "padded", Desc: fmt.Sprintf("body+%d bytes (%x..)", len(g), g[:min(len(g), 3)]), Bytes: withLenPrefix(padded), MustReject: true}) {
 				return
 			}
 		}
@@ -594,6 +602,9 @@ func c12RunChunk(ms []c12Mutant, report func(i int, o c12Obs, sig, what string))
 			}
 			o := n.feed(peer.ID("P"), m.Bytes)
 			sig, what := c12Judge(o, m.Bytes)
+			if sig == "" && m.MustReject && (o.Delivered > 0 || o.Errors != 1) {
+				sig, what = "malformed-frame-accepted", fmt.Sprintf("a frame holding a valid message followed by extra bytes was delivered (%d message(s), %d receive error(s))", o.Delivered, o.Errors)
+			}
 			sinceProbe++
 			if sig == "" && (o.Delivered > 0 || sinceProbe >= 32 || i == len(ms)-1) {
 				sinceProbe = 0
